@@ -1,5 +1,6 @@
 // Numeric / date-time / schedule / weekday commands (C08, C09, C24)
 #include "common.hpp"
+#include <atomic>
 #include <memory>
 #include <cinttypes>
 #include <fix8/f8utils.hpp>
@@ -7,7 +8,7 @@
 extern "C" size_t modp_dtoa(double value, char* str, int prec);
 using namespace FIX8;
 namespace vf {
-extern bool vclock_on; extern struct timespec vclock_now;
+extern std::atomic<bool> vclock_on; extern std::atomic<long long> vclock_ns;
 
 // dtoa <hexfloat:prec>... -> texts (hex) ; via the field print path (Field<fp_type>::print -> modp_dtoa)
 static Reg r_dtoa("dtoa", [](std::istringstream& is) {
@@ -132,8 +133,7 @@ static std::string run_schedule(const Schedule& sch, long long t0, long long ste
 	vclock_on = true;
 	for (long long i(0); i < n; ++i)
 	{
-		vclock_now.tv_sec = t0 + i * step;
-		vclock_now.tv_nsec = 0;
+		vclock_ns = (t0 + i * step) * 1000000000LL;
 		prev = sch.test(prev);
 		threaded += prev ? '1' : '0';
 		stateless += sch.test(false) ? '1' : '0';
